@@ -4,7 +4,7 @@ first-generation AST (worker JSON) into the same N-form.
 
 N-form (tuples):
   declarations: ("const", name, flags, type, expr) | ("fn", name, flags, [(pname, type)], rettype, body|None)
-                | ("struct", name, flags, size_in_bytes|-1, [(mname, type)]) | ("import", path)
+                | ("struct", name, flags, size_in_bytes|-1, [(mname, type)]) | ("import", path, flags)
       body = (statements, return_expr|None);  flags = tuple of sorted names ("External", "Public")
   types: ("prim", "Int32") | ("named", n) | ("array", n, T) | ("arrayn", name, T) | ("slice", T) | ("endless", T)
          | ("arraylike", T) | ("ptr", T) | ("view", T)
@@ -325,7 +325,9 @@ class G2:
             bits = r.choice([8, 16, 32, 64, 128])
             return ("struct", self.name(True), fl, bits // 8, [(self.name(), self.gtype(1)) for _ in range(r.randrange(0, 4))])
         if kind == "import":
-            return ("import", r.choice(["a.pn", "lib/b.pn", "core:text", "vendor:libc/stdlib.pn", "x y.pn"]))
+            # `pub import` re-exports (the first-generation tree does not record the flag; see strip_import_flags)
+            return ("import", r.choice(["a.pn", "lib/b.pn", "core:text", "vendor:libc/stdlib.pn", "x y.pn"]),
+                    ("Public",) if "Public" in fl else ())
         raise ValueError(kind)
 
     def module(self, ndecl=None):
@@ -537,7 +539,8 @@ class Src:
     def decl(self, d, force_private=False, strip_body=False):
         k = d[0]
         if k == "import":
-            return 'import "%s";\n' % d[1]
+            pub = "pub" + self.l.sp() if (len(d) > 2 and "Public" in d[2] and not force_private) else ""
+            return pub + 'import "%s";\n' % d[1]
         flags = d[2]
         prefix = ""
         if "Public" in flags and not force_private:
@@ -579,14 +582,21 @@ def module_text(rng, size=6):
 # expected header
 
 
+def strip_import_flags(decls):
+    """The first-generation tree does not record `pub` on an import: for comparisons with it."""
+    return [("import", d[1], ()) if d[0] == "import" else d for d in decls]
+
+
 def header_of(decls):
     """Public declarations in order, pub flag cleared, function bodies removed."""
     out = []
     for d in decls:
-        if d[0] == "import" or "Public" not in d[2]:
+        if "Public" not in d[2]:
             continue
         flags = tuple(x for x in d[2] if x != "Public")
-        if d[0] == "fn":
+        if d[0] == "import":
+            out.append(("import", d[1], flags))
+        elif d[0] == "fn":
             out.append(("fn", d[1], flags, d[3], d[4], None))
         else:
             out.append((d[0], d[1], flags) + tuple(d[3:]))
@@ -880,7 +890,7 @@ def x_decl(n):
         return ("struct", attr_src(n, "identifier"), x_flags(n), int(n[1]["size-in-bytes"]), members)
     if t == "ImportDeclaration":
         s = n[2][0]
-        return ("import", decode_literal_text(attr_src(s, "src")).decode("utf-8", "replace"))
+        return ("import", decode_literal_text(attr_src(s, "src")).decode("utf-8", "replace"), x_flags(n))
     raise XmlError("unexpected declaration element <%s>" % t)
 
 
@@ -1059,7 +1069,7 @@ def a_decl(d):
             members.append((m["name"], a_type(m["type"])))
         return ("struct", d["name"], a_flags(d["flags"]), size, members)
     if k == "import":
-        return ("import", d["file"])
+        return ("import", d["file"], ())
     if k == "poison":
         raise AlphaPoison()
     raise ValueError(d)
